@@ -129,8 +129,16 @@ type floaterRec struct {
 	Mean     bool   `json:"mean"`
 	NoFlip   bool   `json:"noflip"`
 	Boundary bool   `json:"boundary"`
+	Extend   bool   `json:"extend"` // ExtendBoundaryUVs records only (true otherwise)
 	Note     string `json:"note,omitempty"`
 	Panic    string `json:"panic"`
+}
+
+// stretchOpt: run StretchMinimizingParameterization instead of Floater97 (same boundary / no-flip clauses; the
+// weighted-mean clause is not asked: the weights are re-estimated on the way)
+type stretchOpt struct {
+	iters int
+	eta   float64
 }
 
 func fanDisc(rng *rand.Rand, n int) *model3d.Mesh {
@@ -161,7 +169,14 @@ func symFan() *model3d.Mesh {
 }
 
 func floaterRun(id int, name string, disc *model3d.Mesh, weighting string, bnd string) floaterRec {
-	rec := floaterRec{ID: id, Kind: "floater", Site: "Floater97:" + weighting + ":" + bnd, Mesh: name, Mean: true, NoFlip: true, Boundary: true}
+	return floaterRunX(id, name, disc, weighting, bnd, nil)
+}
+
+func floaterRunX(id int, name string, disc *model3d.Mesh, weighting string, bnd string, stretch *stretchOpt) floaterRec {
+	rec := floaterRec{ID: id, Kind: "floater", Site: "Floater97:" + weighting + ":" + bnd, Mesh: name, Mean: true, NoFlip: true, Boundary: true, Extend: true}
+	if stretch != nil {
+		rec.Site = fmt.Sprintf("StretchMinimizingParameterization:%s:%s:iters=%d:eta=%g", weighting, bnd, stretch.iters, stretch.eta)
+	}
 	outcome, pan := withDeadline(60*time.Second, func() {
 		var boundary *model3d.CoordMap[model2d.Coord]
 		switch bnd {
@@ -199,7 +214,35 @@ func floaterRun(id int, name string, disc *model3d.Mesh, weighting string, bnd s
 		case 3:
 			solver = &numerical.BiCGSTABSolver{MaxIters: 400, MAETolerance: 1e-12}
 		}
-		param := model3d.Floater97(disc, boundary, weights, solver)
+		var param *model3d.CoordMap[model2d.Coord]
+		if stretch != nil {
+			// FINDING pending: StretchMinimizingParameterization panics ("invalid stretch result") when the weight map
+			// has an entry towards a vertex all of whose triangles have three boundary vertices (the stretch of such a
+			// vertex is 0/0); Floater97UniformWeights / InvChordLengthWeights produce such entries (with a boundary
+			// vertex as centre, which Floater97 never reads).  Exactly those entries are removed here.
+			// Reproduction: /tmp/apis_findings.md
+			var drop [][2]model3d.Coord3D
+			weights.KeyRange(func(k [2]model3d.Coord3D) bool {
+				all := true
+				for _, t := range disc.Find(k[1]) {
+					for _, c := range t {
+						if _, ok := boundary.Load(c); !ok {
+							all = false
+						}
+					}
+				}
+				if all {
+					drop = append(drop, k)
+				}
+				return true
+			})
+			for _, k := range drop {
+				weights.Delete(k)
+			}
+			param = model3d.StretchMinimizingParameterization(disc, boundary, weights, solver, stretch.iters, stretch.eta, false)
+		} else {
+			param = model3d.Floater97(disc, boundary, weights, solver)
+		}
 		// boundary vertices stay where the boundary map put them
 		boundary.Range(func(k model3d.Coord3D, v model2d.Coord) bool {
 			if got, ok := param.Load(k); !ok || got.Dist(v) > 1e-12 {
@@ -209,7 +252,7 @@ func floaterRun(id int, name string, disc *model3d.Mesh, weighting string, bnd s
 		})
 		// interior vertices: weighted mean of the neighbours (weights are directed: w(v -> n))
 		for _, v := range disc.VertexSlice() {
-			if _, ok := boundary.Load(v); ok {
+			if _, ok := boundary.Load(v); ok || stretch != nil {
 				continue
 			}
 			var sum model2d.Coord
@@ -242,6 +285,75 @@ func floaterRun(id int, name string, disc *model3d.Mesh, weighting string, bnd s
 				rec.NoFlip = false
 			}
 		})
+	})
+	if outcome != "ok" {
+		rec.Panic = outcome + " " + pan
+	}
+	return rec
+}
+
+// extendRun: ExtendBoundaryUVs on a Floater97 parameterisation.  Documented: it moves vertices of triangles on
+// the boundary (a boundary vertex whose two boundary neighbours span a triangle with it) by at most maxDist so that
+// these triangles are "not highly stretched or even fully degenerate".  Clause extend: nothing else moves, no
+// vertex moves further than maxDist, no such triangle gets a smaller UV area, and one that was degenerate in UV but
+// not in 3-D no longer is.
+func extendRun(id int, name string, disc *model3d.Mesh, bnd string, maxDist float64, stats map[string]int) floaterRec {
+	rec := floaterRec{ID: id, Kind: "floater", Site: fmt.Sprintf("ExtendBoundaryUVs:%s:maxDist=%g", bnd, maxDist), Mesh: name,
+		Mean: true, NoFlip: true, Boundary: true, Extend: true}
+	outcome, pan := withDeadline(60*time.Second, func() {
+		boundary := model3d.CircleBoundary(disc)
+		if bnd == "square" {
+			boundary = model3d.SquareBoundary(disc)
+		}
+		param := model3d.Floater97(disc, boundary, model3d.Floater97UniformWeights(disc), nil)
+		before := map[model3d.Coord3D]model2d.Coord{}
+		param.Range(func(k model3d.Coord3D, v model2d.Coord) bool { before[k] = v; return true })
+		model3d.ExtendBoundaryUVs(disc, param, maxDist)
+		// the triangles whose three vertices are on the boundary with the middle one used by no other triangle
+		ear := map[model3d.Coord3D]*model3d.Triangle{}
+		disc.Iterate(func(t *model3d.Triangle) {
+			for i, c := range t {
+				_, b0 := boundary.Load(c)
+				_, b1 := boundary.Load(t[(i+1)%3])
+				_, b2 := boundary.Load(t[(i+2)%3])
+				if b0 && b1 && b2 && len(disc.Find(c)) == 1 {
+					ear[c] = t
+				}
+			}
+		})
+		area := func(t *model3d.Triangle, uv func(model3d.Coord3D) model2d.Coord) float64 {
+			a, b, c := uv(t[0]), uv(t[1]), uv(t[2])
+			return math.Abs((b.X-a.X)*(c.Y-a.Y)-(b.Y-a.Y)*(c.X-a.X)) / 2
+		}
+		n := 0
+		param.Range(func(k model3d.Coord3D, v model2d.Coord) bool {
+			n++
+			d := v.Dist(before[k])
+			if math.IsNaN(d) || d > maxDist*(1+1e-9) {
+				rec.Extend = false
+				rec.Note += " moved further than maxDist"
+			}
+			if t, ok := ear[k]; !ok {
+				if v != before[k] {
+					rec.Extend = false
+					rec.Note += " a vertex that is not the tip of a boundary triangle moved"
+				}
+			} else {
+				a0 := area(t, func(c model3d.Coord3D) model2d.Coord { return before[c] })
+				a1 := area(t, param.Value)
+				if d > 0 {
+					stats["extend-moved"]++
+				}
+				if a1 < a0-1e-12 || (a0 < 1e-12 && t.Area() > 1e-9 && maxDist > 0 && !(a1 > 0)) {
+					rec.Extend = false
+					rec.Note += " boundary triangle more degenerate than before"
+				}
+			}
+			return true
+		})
+		if n != len(before) {
+			rec.Extend = false
+		}
 	})
 	if outcome != "ok" {
 		rec.Panic = outcome + " " + pan
@@ -408,6 +520,13 @@ type mapRec struct {
 	Tris  [][][]int  `json:"tris"`
 	Qs    []mapQuery `json:"qs"`
 	Panic string     `json:"panic"`
+	// Bounds2D (integers), 4 * Area3D^2 (the lift multiplies areas by sqrt 6), and ToBounds(nb[0], nb[1]): the
+	// new UV triangles in the order of tris, in 1/8 units; bx: every projection was exact
+	B2 [][]int   `json:"b2"`
+	A4 int       `json:"a4"`
+	NB [][]int   `json:"nb"`
+	TB [][][]int `json:"tb"`
+	BX bool      `json:"bx"`
 }
 
 func mapfnRun(id int, cells [][]int, diag int, g int) mapRec {
@@ -418,6 +537,7 @@ func mapfnRun(id int, cells [][]int, diag int, g int) mapRec {
 	uvp := func(p []int) model2d.Coord { return model2d.XY(float64(p[0]), float64(p[1])) }
 	uv := model3d.MeshUVMap{}
 	tri2 := map[*model3d.Triangle][][]int{}
+	var order []*model3d.Triangle // the 3-D triangles in the order of rec.Tris
 	for _, c := range cells {
 		// cells are placed on a doubled lattice so that islands have gutters of at least one unit
 		x, y := 2*c[0], 2*c[1]
@@ -432,10 +552,38 @@ func mapfnRun(id int, cells [][]int, diag int, g int) mapRec {
 			t3 := &model3d.Triangle{lift(t[0]), lift(t[1]), lift(t[2])}
 			uv[t3] = [3]model2d.Coord{uvp(t[0]), uvp(t[1]), uvp(t[2])}
 			tri2[t3] = t
+			order = append(order, t3)
 			rec.Tris = append(rec.Tris, t)
 		}
 	}
+	rec.B2, rec.NB, rec.TB = [][]int{}, [][]int{}, [][][]int{}
 	rec.Panic = protect(func() {
+		rec.BX = true
+		proj := func(x, k float64) int {
+			v, ok := scaledInt(x, k)
+			rec.BX = rec.BX && ok
+			return v
+		}
+		lo, hi := uv.Bounds2D()
+		rec.B2 = [][]int{{proj(lo.X, 1), proj(lo.Y, 1)}, {proj(hi.X, 1), proj(hi.Y, 1)}}
+		a := uv.Area3D()
+		rec.A4 = proj(4*a*a, 1)
+		// new bounds: moved, stretched by 2 (3) along x (y), from the extent the library itself reports
+		nlo := model2d.XY(-3, 5)
+		nhi := nlo.Add(hi.Sub(lo).Mul(model2d.XY(2, 3)))
+		rec.NB = [][]int{{proj(nlo.X, 1), proj(nlo.Y, 1)}, {proj(nhi.X, 1), proj(nhi.Y, 1)}}
+		moved := uv.ToBounds(nlo, nhi)
+		if len(moved) != len(uv) {
+			rec.BX = false
+		}
+		for _, t3 := range order {
+			tri, ok := moved[t3]
+			if !ok {
+				rec.BX = false
+			}
+			rec.TB = append(rec.TB, [][]int{{proj(tri[0].X, 8), proj(tri[0].Y, 8)}, {proj(tri[1].X, 8), proj(tri[1].Y, 8)},
+				{proj(tri[2].X, 8), proj(tri[2].Y, 8)}})
+		}
 		fn := uv.MapFn()
 		// queries on the half lattice covering the layout and a margin
 		for cx := -3; cx <= 4*g+1; cx++ {
@@ -534,6 +682,24 @@ func init() {
 					out.write(floaterRun(id, "symfan", symFan(), w, b))
 				}
 			}
+			// ---- StretchMinimizingParameterization on the same discs (boundary fixed, no flips), ExtendBoundaryUVs
+			for i, d := range discs {
+				for k, w := range []string{"uniform", "chord", "shape"} {
+					b := []string{"circle", "square", "pnorm"}[(i+k)%3]
+					opt := []stretchOpt{{3, 1}, {-1, 1}, {2, 0.5}, {1, 1}}[(i+2*k)%4]
+					id++
+					out.write(floaterRunX(id, discNames[i], d, w, b, &opt))
+				}
+			}
+			extDiscs, extNames := append([]*model3d.Mesh{paramMesh("disc")}, discs...), append([]string{"disc"}, discNames...)
+			for i, d := range extDiscs {
+				for _, b := range []string{"circle", "square"} {
+					id++
+					out.write(extendRun(id, extNames[i], d, b, []float64{0.05, 10, 0}[(i+len(b))%3], stats))
+				}
+			}
+			stats["extend-records"] = 2 * len(extDiscs)
+			// ----
 			for _, k := range []int{1, 2, 3, 5, 6, 9, 18} {
 				for _, sz := range [][2]float64{{1, 1}, {1, 2}, {1, 3}, {2, 1}, {3, 2}} {
 					id++
